@@ -88,6 +88,7 @@ type xferOpts struct {
 	timeout    time.Duration
 	progress   bool
 	holdHasher int
+	cancelSend *func() // set by runXfer: cancels the context handed to Send (and nothing else)
 	fault      *faultPlan
 }
 
@@ -200,7 +201,15 @@ func runXfer(src fsutil.FS, dest string, o xferOpts, log *evLog) *xferResult {
 				}
 			}
 		}
-		res.sendErr = fsutil.Send(ctx, s, src, cb)
+		sendCtx, cancelS := context.WithCancel(ctx)
+		defer cancelS()
+		if o.cancelSend != nil {
+			*o.cancelSend = func() {
+				log.add(logEv{End: "S", Kind: "cancel"})
+				cancelS()
+			}
+		}
+		res.sendErr = fsutil.Send(sendCtx, s, src, cb)
 		sendRetAt = time.Now()
 		res.sendRet = true
 		log.add(logEv{End: "S", Kind: "return", N: b2i(res.sendErr != nil)})
@@ -317,6 +326,7 @@ func parseXferOpts(m Op) xferOpts {
 	}
 	o.progress = m.boolean("progress")
 	o.holdHasher = m.num("hold_hasher")
+	o.cancelSend = new(func())
 	if ms := m.num("timeout_ms"); ms > 0 {
 		o.timeout = time.Duration(ms) * time.Millisecond
 	}
